@@ -194,7 +194,11 @@ class P:
         if v == "|":
             self.next(); ps = []
             while not self.at("|"):
-                ps.append(self.pat()); self.opt(",")
+                ps.append(self.pat())
+                if self.opt(":"):
+                    while not (self.at(",") or self.at("|")):
+                        self.next()
+                self.opt(",")
             self.eat("|")
             body = self.expr()
             return ("closure", ps, body)
@@ -594,6 +598,9 @@ class Tr:
             return "([] : List α)", "deque"
         if name in ("Default::default", "std::marker::PhantomData"):
             return "()", "phantom"
+        if len(path) == 1 and self.env.get(name, "").startswith("fn:"):
+            a = [self.ex(x, "T")[0] for x in args]
+            return "(%s %s)" % (name, " ".join(paren(x) for x in a)), self.env[name][3:]
         if name in self.ctx["free_fns"]:
             raise Unsupported("free function %s" % name)
         raise Unsupported("call %s" % name)
@@ -767,6 +774,15 @@ class Tr:
                 self.emit("let _ ← unwrap self.%s" % pl[1])
                 self.alias[p[1]] = ("optmut", "self.%s" % pl[1]); self.alias_field = pl[1]
                 self.env[p[1]] = "aliasT"
+                return
+            if e[0] == "closure" and p[0] == "pvar" and all(q[0] == "pvar" for q in e[1]):
+                # a local pure helper: |k: T| expr
+                sub = Tr(self.view, self.fn, self.ctx); sub.env = dict(self.env)
+                for q in e[1]: sub.env[q[1]] = "T"
+                body, bt = sub.ex(e[2], "T")
+                if sub.lines: raise Unsupported("local closure with effects")
+                self.emit("let %s := fun %s => %s" % (p[1], " ".join("(%s : α)" % q[1] for q in e[1]), body))
+                self.env[p[1]] = "fn:" + bt
                 return
             v, t = self.ex(e, "T")
             if t == "optT!": t = "optT"; v = "(some %s)" % v
@@ -982,7 +998,7 @@ def gen_view(name, relpath, items, all_items, ctor="new"):
             last = body[-1]
             if last[0] != "expr": raise Unsupported("constructor without tail expression")
             e = last[1]
-            if e[0] == "call" and e[1][0] == "Self" and e[1][1] in items["fns"].get(name, {}):
+            if e[0] == "call" and len(e[1]) == 2 and e[1][0] in ("Self", name) and e[1][1] in items["fns"].get(name, {}):
                 # delegating constructor: Self::other(view, args...)
                 tgt = items["fns"][name][e[1][1]]
                 a = []
@@ -1027,7 +1043,7 @@ def gen_view(name, relpath, items, all_items, ctor="new"):
     ctors = [f for f in fns.values() if not any(p[0] == "self" for p in f["params"])]
     helpers = [f for f in fns.values() if any(p[0] == "self" for p in f["params"])]
     # delegating constructors after their targets
-    ctors.sort(key=lambda f: 1 if (f["body"] and f["body"][-1][0] == "expr" and f["body"][-1][1][0] == "call") else 0)
+    ctors.sort(key=lambda f: 1 if (f["body"] and f["body"][-1][0] == "expr" and f["body"][-1][1][0] == "call" and len(f["body"]) == 1) else 0)
     skipped = []
     for f in helpers:
         try:
@@ -1052,7 +1068,7 @@ VIEWS = {
     "Vst": "sliding_windows/variance_stabilizing_transformation.rs", "Vsct": "sliding_windows/vsct.rs",
     "Rsi": "sliding_windows/rsi.rs", "MyRSI": "sliding_windows/my_rsi.rs", "LaguerreFilter": "sliding_windows/laguerre_filter.rs",
     "LaguerreRSI": "sliding_windows/laguerre_rsi.rs", "BinaryEntropy": "sliding_windows/binary_entropy.rs",
-    "RoofingFilter": "sliding_windows/roofing_filter.rs",
+    "RoofingFilter": "sliding_windows/roofing_filter.rs", "Alma": "sliding_windows/alma.rs",
 }
 
 def main():
